@@ -73,7 +73,9 @@ def _undecided(message: str) -> bool:
     return False
   kinds = _OUTCOME.findall(message)
   if len(kinds) == 1 and kinds[0] == 'raise':
-    return False
+    # one raise is a decided refusal - unless it is the kind of error a harness produces when a private function it
+    # drives with hand-made arguments changed its parameters (a refactoring): that says nothing about the property
+    return bool(re.search(r"raise (AttributeError|TypeError|NameError)\b", message))
   return True
 
 
